@@ -58,3 +58,16 @@ MANIFEST = {
     "note": "Trusted: Lean kernel + 3 standard axioms; harness/driver/check.py glue. The matcher and traversal are parameters (verdicts are data). Node::replace_all: edits of the outermost matches, ordered and disjoint (replaceAll_ordered_disjoint), tied by nav_replace_all.",
     "technique": "Lean 4 proof over hand-written executable model against an independent splice specification + differential correspondence through cfg-guarded hooks and the real CLI",
 }
+
+
+# slice lsp_requests: the edits of the language server's fix-all (code action and command) over sessions
+ENTRY["lean_modules"] += ["AstGrepVerif.Props.LspRequests"]
+ENTRY["theorems"] += [
+    "AGV.LspRequests.fixall_ordered_disjoint",
+    "AGV.LspRequests.session_fixall_ordered_disjoint",
+    "AGV.LspRequests.fixall_dropped_overlaps",
+]
+ENTRY["units"] += ["lsp_requests"]
+ENTRY["trusted_base"] += [
+    "slice lsp_requests: the analysis of a text (the model's parameter `analyse`) is the real get_diagnostics taken from a second in-process server instance with the same rules; the harness' JSON-RPC client (framing, barrier by workspace/didChangeConfiguration, answering workspace/workspaceFolders and workspace/applyEdit), the classification of an executeCommand outcome by its log line, and the driver's decoding of wire diagnostics (source / code / data as serde reads them) are trusted glue",
+]
